@@ -23,6 +23,7 @@ func init() {
 // input / response (key = PanicSite.Key(); one named construct per entry). Shared by C13 and C19:
 // a site is looked up only when it is reachable from that property's entry points.
 var kReasoned = map[string]string{
+	"niltype:core/plugin/pluginconfig.parseConf$1:reflect.TypeOf(conf).Elem()": "fillConf is handed only to the registry, which calls it with the pointer to the config it has just created (defaultConfigContainer.new -> reflect.New(...).Interface(), O18.3): conf is a non-nil pointer, its Type is not nil",
 	// ---- plugin registry: shapes fixed at registration (O18.1 checks every registration call site)
 	"index:core/plugin.convertFactoryOutParams:out[1]":               "dominated by numOut < len(out) with numOut in {1,2} (the switch above panics otherwise): len(out) >= 2",
 	"abort:(*core/plugin.pluginConstructor).NewFactory$1:panic(err)": "documented (C18): a config error panics only when the requested factory type has no error result; every factory field of pandora's config structs has one (func() (core.Gun, error), func() (core.Schedule, error))",
@@ -275,7 +276,7 @@ func runC13(c *Ctx) {
 	c.Rule("O13.4", "make sizes and rand.Intn-family arguments that derive from parsed text are dominated by a lower and an upper bound (sizes) / > 0 (rand), or listed with a reason")
 	c.Rule("O13.5", "explicit panic / zap Panic/Fatal / log.Fatal / os.Exit sites reachable from the input entry points are the listed ones (registration-time programming errors, the CLI's documented exits)")
 	roots := inputRoots(c)
-	runInventory(c, "O13", roots, kReasoned, map[string]string{"index": "O13.1", "slice": "O13.1", "assert": "O13.2", "div": "O13.3", "size": "O13.4", "rand": "O13.4", "abort": "O13.5"})
+	runInventory(c, "O13", roots, kReasoned, map[string]string{"index": "O13.1", "slice": "O13.1", "assert": "O13.2", "niltype": "O13.2", "div": "O13.3", "size": "O13.4", "rand": "O13.4", "abort": "O13.5"})
 	c.Rule("O13.6", "decode errors propagate: every call returning an error inside the ammo decoders is tested and its error returned (wrapped or not) on the non-nil edge")
 	c.Rule("O13.7", "end of input is told apart from a truncated entry: errors.Is(err, io.EOF) is never applied to the result of a pandora helper that wraps read errors")
 	c13Support(c)
@@ -292,7 +293,7 @@ func runC19(c *Ctx) {
 	c.Rule("O19.4", "tainted sizes / rand arguments reachable from any Gun.Shoot are bounded")
 	c.Rule("O19.6", "explicit aborts reachable from any Gun.Shoot are the documented ones")
 	roots := shootRoots(c)
-	runInventory(c, "O19", roots, kReasoned, map[string]string{"index": "O19.1", "slice": "O19.1", "assert": "O19.2", "div": "O19.3", "size": "O19.4", "rand": "O19.4", "abort": "O19.6"})
+	runInventory(c, "O19", roots, kReasoned, map[string]string{"index": "O19.1", "slice": "O19.1", "assert": "O19.2", "niltype": "O19.2", "div": "O19.3", "size": "O19.4", "rand": "O19.4", "abort": "O19.6"})
 	c.Rule("O19.7", "failures are recorded and Shoot returns: no panic / Fatal / Exit site lies on any path after the exchange with the target returned")
 	c19Support(c)
 }
